@@ -25,6 +25,8 @@ func (P) Rule() string {
 		"underfunded, oversized payload, fee-too-low account->confidential, confidential spends incl. two spends of one output), Reap(max) for several max (each reaped set is executed by the real " +
 		"CreateBlock-equivalent + PreRunBlock), commits of blocks built by CreateBlock+PreRunBlock+CheckBlock+CommitBlock (Mempool.Update inside) and of forced blocks holding arbitrary earlier " +
 		"transactions (what another or a Byzantine proposer commits), printing after every op the order of goodTxs and utxoTxs, the queued set, Stats, the speculative and committed nonces/balances; " +
+		"a survivor stream (90 quick / 300 thorough cases) makes pending transactions SURVIVE a commit that does not contain them (forced block of an unrelated tx, empty forced block, own block cut by the UTXOSize/max cap, " +
+		"foreign block holding a CONFLICTING spend or a same-nonce competitor) with goodTxs and utxoTxs each empty or not at that Update (every recheck path), then submits a second spend of the same output / the same nonce and reaps and commits; " +
 		"a concurrent stream submits prebuilt transactions from 8 goroutines while the consensus goroutine reaps and commits, invariants checked on every reap and after quiescence; " +
 		"non-trivial = at least one commit with a transaction AND at least one of: queued transaction promoted, rejection (dup/stale/funds/double-spend/full/oversized), forced block; distinct = distinct op sequence"
 }
@@ -479,6 +481,13 @@ func (P) Generate(g *hx.Gen) {
 		g.Case(fmt.Sprintf("history size=%d future=%d utxosize=%d maxreap=%d big=%v", size, future, utxosize, maxreap, s.bigBal), s.ops,
 			commits > 0 && (tags["future"] || tags["reject"] || tags["force"]))
 	}
+	// survivor stream: pending transactions that SURVIVE a commit (every recheck path of Update), then a conflicting
+	// submission and a reap / commit
+	ns := g.Pick(90, 300)
+	for k := 0; k < ns; k++ {
+		ops, label := survivorCase(g)
+		g.Case("survivor "+label, ops, true)
+	}
 	// concurrent stream: 8 submitting goroutines against the reaping/committing consensus goroutine
 	nc := g.Pick(25, 50)
 	for k := 0; k < nc; k++ {
@@ -509,4 +518,166 @@ func (P) Generate(g *hx.Gen) {
 		g.Count("conc:cases")
 		g.Case(fmt.Sprintf("concurrent size=%d", size), ops, true)
 	}
+}
+
+// survivorCase builds a history in which pending transactions survive a commit that does not contain them — a forced block
+// of other transactions, an empty forced block, a block that the UTXOSize / max cap cut short, a foreign block holding a
+// CONFLICTING transaction — with goodTxs and utxoTxs empty or not at that moment (all combinations of the recheck paths of
+// Mempool.Update), followed by a conflicting submission (second spend of the same output / same nonce), reaps and commits.
+// Ids are tracked exactly: every op of this stream builds a fresh transaction (distinct amounts, always buildable).
+func survivorCase(g *hx.Gen) ([]string, string) {
+	r := g.Rng
+	utxosize := pick(r, []int{1, 2, 1000}, 55)
+	size := pick(r, []int{5, 3000}, 80)
+	ops := []string{hx.CaseOp("survivor"), fmt.Sprintf("pool accts=3 wallets=2 bal=1000000000000 tbal=1000 size=%d future=100000 utxosize=%d maxreap=10000 trie=%d seed=%d",
+		size, utxosize, r.Intn(2), 1+r.Intn(1000))}
+	id := 0
+	next := []int{0, 0, 0}
+	amt := 1000
+	add := func(f string, a ...interface{}) { ops = append(ops, fmt.Sprintf(f, a...)) }
+	newAmt := func() int { amt += 1 + r.Intn(50); return amt }
+	// seed wallet 0 with m outputs (indices 0..m-1 whatever the commit order) and drain the pool
+	m := 3 + r.Intn(3)
+	for i := 0; i < m; i++ {
+		from := r.Intn(3)
+		add("ain from=%d w=0 amount=%d nonce=%d", from, 20000000000+int64(r.Intn(1000000))*10000, next[from])
+		next[from]++
+		id++
+	}
+	for i := 0; i < m+1; i++ {
+		add("commit max=1000")
+	}
+	free := []int{} // outputs of wallet 0 not yet used by this generator
+	for i := 0; i < m; i++ {
+		free = append(free, i)
+	}
+	takeOut := func() int {
+		if len(free) == 0 {
+			return -1
+		}
+		i := r.Intn(len(free))
+		o := free[i]
+		free = append(free[:i], free[i+1:]...)
+		return o
+	}
+	spend := func(out int, sub bool) int { // a fresh confidential spend of output `out`; returns its id
+		suffix := ""
+		if !sub {
+			suffix = " sub=0"
+		}
+		if r.Intn(2) == 0 {
+			add("uu w=0 in=%d to=%d amount=%d%s", out, r.Intn(2), newAmt(), suffix)
+		} else {
+			add("ua w=0 in=%d to=%d amount=%d%s", out, r.Intn(3), newAmt(), suffix)
+		}
+		id++
+		return id - 1
+	}
+	xfer := func(from int, sub bool) int {
+		suffix := ""
+		if !sub {
+			suffix = " sub=0"
+		}
+		add("xfer from=%d to=%d amount=%d nonce=%d%s", from, r.Intn(3), newAmt(), next[from], suffix)
+		id++
+		return id - 1
+	}
+	var labels []string
+	rounds := 1 + r.Intn(2)
+	for round := 0; round < rounds; round++ {
+		// account transactions pending at the same time? (0: goodTxs empty at the Update)
+		nAcct := []int{0, 0, 1, 2}[r.Intn(4)]
+		acctFrom := r.Intn(2)
+		for i := 0; i < nAcct; i++ {
+			xfer(acctFrom, true)
+			next[acctFrom]++
+		}
+		variant := r.Intn(6)
+		out := takeOut()
+		if out < 0 {
+			variant = 5
+		}
+		switch variant {
+		case 0: // a forced block of an unrelated, never submitted transaction: everything pending survives
+			labels = append(labels, fmt.Sprintf("force-other/acct=%d", nAcct))
+			g.Count("survivor:force-other")
+			spend(out, true)
+			x := xfer(2, false)
+			add("force ids=%d", x)
+			next[2]++
+		case 1: // an empty foreign block
+			labels = append(labels, fmt.Sprintf("force-empty/acct=%d", nAcct))
+			g.Count("survivor:force-empty")
+			spend(out, true)
+			add("force ids=-")
+		case 2: // the own block is cut short: a second pending spend is left behind by the UTXOSize cap (or by nothing, if the cap is wide)
+			labels = append(labels, fmt.Sprintf("cap/acct=%d/utxosize=%d", nAcct, utxosize))
+			g.Count("survivor:cap")
+			if o2 := takeOut(); o2 >= 0 {
+				spend(o2, true)
+			}
+			spend(out, true)
+			add("commit max=%d", []int{1, 1000}[r.Intn(2)])
+		case 3: // a foreign block holding a CONFLICTING spend of the same output: the pending one must go
+			labels = append(labels, fmt.Sprintf("force-conflict/acct=%d", nAcct))
+			g.Count("survivor:force-conflict")
+			c := spend(out, false)
+			spend(out, true)
+			add("force ids=%d", c)
+		case 4: // pending spend survives a forced block that commits the pending ACCOUNT transactions' competitor
+			labels = append(labels, fmt.Sprintf("force-acct-competitor/acct=%d", nAcct))
+			g.Count("survivor:force-acct-competitor")
+			spend(out, true)
+			from := 2
+			a := xfer(from, true) // pending
+			_ = a
+			c := xfer(from, false) // same nonce, different content, never submitted
+			next[from]++
+			xfer(from, true) // the follower nonce, pending
+			next[from]++
+			add("force ids=%d", c)
+		default: // mirror: only account transactions pending, utxo list empty; own block cut by max, or a competitor forced
+			labels = append(labels, fmt.Sprintf("acct-only/acct=%d", nAcct))
+			g.Count("survivor:acct-only")
+			from := 2
+			xfer(from, true)
+			next[from]++
+			c := xfer(from, false) // competitor of the next one
+			xfer(from, true)
+			next[from]++
+			xfer(from, true)
+			next[from]++
+			if r.Intn(2) == 0 {
+				add("commit max=1")
+			} else {
+				add("force ids=%d", c)
+			}
+		}
+		if r.Intn(3) == 0 {
+			add("reap max=1000")
+		}
+		// the conflicting submissions after the commit
+		if out >= 0 {
+			spend(out, true) // second spend of the same output: must be refused while the first is pending or committed
+			if r.Intn(2) == 0 {
+				spend(out, true)
+			}
+		}
+		if r.Intn(2) == 0 && id > 0 {
+			add("resub id=%d", r.Intn(id))
+		}
+		add("reap max=%d", []int{2, 1000, 1000}[r.Intn(3)])
+		add("commit max=1000")
+		if r.Intn(2) == 0 {
+			// once more after the commit: the output is now spent on chain (or its spend still pending)
+			if out >= 0 {
+				spend(out, true)
+			}
+			add("reap max=1000")
+		}
+		add("commit max=1000")
+	}
+	add("commit max=1000")
+	add("reap max=1000")
+	return ops, strings.Join(labels, "+")
 }
